@@ -4,3 +4,4 @@ import P2P.Props.C12
 #print axioms P2P.Props.C12.output_path_footprint
 #print axioms P2P.Props.C12.charge_check_before_output
 #print axioms P2P.Props.C12.checks_first
+#print axioms P2P.Props.C12.charge_guard_spec
